@@ -10,6 +10,7 @@ from ..astutil import u
 from ..grammar import grammar
 from ..model import AnalysisError, Fn, Prog, loc
 from ..report import Ctx
+from . import common as _common
 from ..safety import _is_seq_source, scan_function
 
 EXPLANATION = (
@@ -32,16 +33,16 @@ _SQLPARSE_GROUP = ("the non-validating analyzer strips comments before parsing (
                    "so the first / last token of a group is a code token", None)
 ALLOW_RAW = {
     "SqlParseColumn._extract_source_columns:.tokens:index:-1": _SQLPARSE_GROUP,
-    "parser.sqlparse.utils.get_subquery_parentheses:.tokens:index:-1": _SQLPARSE_GROUP,
-    "parser.sqlparse.utils.get_parameters:.tokens:index:-1": _SQLPARSE_GROUP,
+    "get_subquery_parentheses:.tokens:index:-1": _SQLPARSE_GROUP,
+    "get_parameters:.tokens:index:-1": _SQLPARSE_GROUP,
     "SwapPartitionHandler.handle:.tokens:index:-1": _SQLPARSE_GROUP,
     "SqlFluffLineageAnalyzer.split_tsql:.segments:index:0": ("a `statement` node wraps exactly one child statement segment: nothing can sit before it", "statement-wraps-one"),
     "SqlFluffLineageAnalyzer.analyze:.segments:index:0": ("a `statement` node wraps exactly one child statement segment: nothing can sit before it", "statement-wraps-one"),
     "SqlFluffTable.of:.segments:index:0": ("object / table references are parsed with allow_gaps=False: no whitespace or comment between their parts", "reference-no-gaps"),
     "SqlFluffTable.of:.segments:index:i+1": ("same: dotted references have no gaps, so the segment after the last dot is the name part", "reference-no-gaps"),
     "SqlFluffTable.of:.segments:index:var": ("same: dotted references have no gaps", "reference-no-gaps"),
-    "parser.sqlfluff.utils.is_subquery:.segments:index:0": ("a from_expression_element starts with its table expression; comments before it attach to the enclosing from_expression", "fee-first"),
-    "parser.sqlfluff.utils.extract_as_and_target_segment:.segments:index:0": ("the target is a table_expression whose first child is the table reference / bracketed query (no leading gap inside a freshly matched segment)", "fee-first"),
+    "is_subquery:.segments:index:0": ("a from_expression_element starts with its table expression; comments before it attach to the enclosing from_expression", "fee-first"),
+    "extract_as_and_target_segment:.segments:index:0": ("the target is a table_expression whose first child is the table reference / bracketed query (no leading gap inside a freshly matched segment)", "fee-first"),
     "SqlParseLineageAnalyzer.analyze:.tokens:index:1": ("the non-validating analyzer strips comments before parsing (trim_comment in analyze); token 1 of a Parenthesis follows the opening bracket", None),
     "BaseExtractor._list_table_from_from_clause_or_join_clause:.segments:index:-1": ("a file_reference has no gaps; its last segment is the path literal", "reference-no-gaps"),
 }
@@ -236,7 +237,7 @@ def rules(ctx: Ctx) -> None:
             ctx.obligations.append(replace(o, rule="R07.4"))
     # the sqlparse-based analyzer strips comments before parsing (its anchor for comment insensitivity)
     sp = prog.fn("SqlParseLineageAnalyzer.analyze")
-    ctx.ob("R07.1", "sqlparse-analyzer-strips-comments-first", any(isinstance(k, ast.Call) and "trim_comment" in u(k.func) for k in prog.walk_fn(sp)), sp.loc(),
+    ctx.ob("R07.1", "sqlparse-analyzer-strips-comments-first", any(_common.strips_comments(prog, sp, k) for k in prog.walk_fn(sp) if isinstance(k, ast.Call)), sp.loc(),
            "the non-validating analyzer parses the statement with comments removed")
 
     # ---- R07.5 SQL text is never re-flowed before it is analysed -------------------------------------------
